@@ -1978,3 +1978,236 @@ Proof.
     destruct (poll_step_inv fuel op s o s1 Hinv Hs) as [Hinv1 _].
     cbn [wakes_ok]. split; [exact Hw|]. eapply IH; eauto.
 Qed.
+
+(* ====================================================================== *)
+(* statements from the initial state (what prop/C12.v pins)                *)
+
+Lemma rabs_new base mx rs src : rabs (rh_new base mx rs src) = src.
+Proof.
+  unfold rabs, rh_new. cbn [rb rsrc]. destruct (buf_with_capacity_wf base) as [_ E]. rewrite E.
+  reflexivity.
+Qed.
+Lemma wabs_new base mx ws : wabs (wh_new base mx ws) = [].
+Proof.
+  unfold wabs, wh_new. cbn [wb wlog]. destruct (buf_with_capacity_wf base) as [_ E]. rewrite E.
+  reflexivity.
+Qed.
+
+Theorem poll_fifo fuel base mx rs src ws ops outs s' :
+  run (poll_step_fuel fuel) ops (st_new base mx rs src ws) = Ok (outs, s') ->
+  handed outs ++ buf_pending (rb (rh s')) ++ rsrc (rh s') = src /\
+  sink_bytes (wlog (wh s')) ++ buf_pending (wb (wh s')) = accepted outs /\
+  length (buf_pending (wb (wh s'))) <= mx /\
+  length (buf_pending (rb (rh s'))) <= Nat.max base (mx + base - 1).
+Proof.
+  intros Hrun.
+  destruct (run_spec (poll_step_fuel fuel) sinv (poll_step_inv fuel) ops _ outs s'
+              (st_new_inv base mx rs src ws) Hrun) as (I & [[C1 C2] [C3 C4]] & R & W).
+  cbn [rh wh st_new] in *. rewrite rabs_new in R. rewrite wabs_new in W.
+  destruct (sinv_limits s' I) as [L1 L2]. unfold rcap_bound in L2.
+  cbn [rbase rmax wbase wmax rh_new wh_new] in *.
+  rewrite C1, C2 in L2. rewrite C4 in L1. auto.
+Qed.
+
+Theorem sync_fifo base mx rs src ws ops outs s' :
+  run sync_step ops (st_new base mx rs src ws) = Ok (outs, s') ->
+  handed outs ++ buf_pending (rb (rh s')) ++ rsrc (rh s') = src /\
+  sink_bytes (wlog (wh s')) ++ buf_pending (wb (wh s')) = accepted outs /\
+  length (buf_pending (wb (wh s'))) <= mx /\
+  length (buf_pending (rb (rh s'))) <= Nat.max base (mx + base - 1).
+Proof.
+  intros Hrun.
+  destruct (run_spec sync_step sync_inv sync_step_inv ops _ outs s'
+              (st_new_sync_inv base mx rs src ws) Hrun) as ((I & _) & [[C1 C2] [C3 C4]] & R & W).
+  cbn [rh wh st_new] in *. rewrite rabs_new in R. rewrite wabs_new in W.
+  destruct (sinv_limits s' I) as [L1 L2]. unfold rcap_bound in L2.
+  cbn [rbase rmax wbase wmax rh_new wh_new] in *.
+  rewrite C1, C2 in L2. rewrite C4 in L1. auto.
+Qed.
+
+Definition flush_success (o : out) : Prop :=
+  match o with OCtl (PRCount _) | OFlushed (OOk _) => True | _ => False end.
+
+(* after a successful flush / close / flush_write_buf every byte accepted so
+   far is at the inner stream, in order (incl. after earlier failed flushes) *)
+Theorem poll_flush_delivers fuel base mx rs src ws ops outs s1 op o s2 :
+  run (poll_step_fuel fuel) ops (st_new base mx rs src ws) = Ok (outs, s1) ->
+  poll_step_fuel fuel op s1 = Ok (o, s2) -> flush_success o ->
+  sink_bytes (wlog (wh s2)) = accepted outs /\ buf_pending (wb (wh s2)) = [].
+Proof.
+  intros Hrun Hstep Hf.
+  destruct (run_spec (poll_step_fuel fuel) sinv (poll_step_inv fuel) ops _ outs s1
+              (st_new_inv base mx rs src ws) Hrun) as (I & _ & _ & W).
+  cbn [wh st_new] in W. rewrite wabs_new in W. cbn [app] in W.
+  destruct (poll_step_spec fuel op s1 o s2 I Hstep) as [(_ & _ & _ & W2 & _) F].
+  assert (En : buf_pending (wb (wh s2)) = []) by (apply F; exact Hf).
+  split; [|exact En]. unfold wabs in *. rewrite En, app_nil_r in W2. rewrite W2.
+  destruct o as [r|r|bs|d r|r|o|o|l|]; try contradiction; cbn [accepted_of]; rewrite app_nil_r; exact W.
+Qed.
+
+Theorem sync_flush_delivers base mx rs src ws ops outs s1 op o s2 :
+  run sync_step ops (st_new base mx rs src ws) = Ok (outs, s1) ->
+  sync_step op s1 = Ok (o, s2) -> flush_success o ->
+  sink_bytes (wlog (wh s2)) = accepted outs /\ buf_pending (wb (wh s2)) = [].
+Proof.
+  intros Hrun Hstep Hf.
+  destruct (run_spec sync_step sync_inv sync_step_inv ops _ outs s1
+              (st_new_sync_inv base mx rs src ws) Hrun) as (I & _ & _ & W).
+  cbn [wh st_new] in W. rewrite wabs_new in W. cbn [app] in W.
+  destruct (sync_step_spec op s1 o s2 I Hstep) as (_ & (_ & _ & _ & W2 & _) & F).
+  assert (En : buf_pending (wb (wh s2)) = []) by (apply F; exact Hf).
+  split; [|exact En]. unfold wabs in *. rewrite En, app_nil_r in W2. rewrite W2.
+  destruct o as [r|r|bs|d r|r|o|o|l|]; try contradiction; cbn [accepted_of]; rewrite app_nil_r; exact W.
+Qed.
+
+(* every window shown by fill_buf / poll_fill_buf is the next bytes of the stream *)
+Theorem poll_window fuel base mx rs src ws ops outs s1 op bs s2 :
+  run (poll_step_fuel fuel) ops (st_new base mx rs src ws) = Ok (outs, s1) ->
+  poll_step_fuel fuel op s1 = Ok (OWin (PRBytes bs), s2) ->
+  exists rest, src = handed outs ++ bs ++ rest.
+Proof.
+  intros Hrun Hstep.
+  destruct (run_spec (poll_step_fuel fuel) sinv (poll_step_inv fuel) ops _ outs s1
+              (st_new_inv base mx rs src ws) Hrun) as (I & _ & R & _).
+  cbn [rh st_new] in R. rewrite rabs_new in R.
+  destruct (poll_step_spec fuel op s1 _ s2 I Hstep) as [(_ & _ & _ & _ & (rest & E)) _].
+  exists rest. rewrite <- R, E. reflexivity.
+Qed.
+
+Theorem wakers_from_start fuel base mx rs src ws ops outs s' :
+  run (poll_step_fuel fuel) ops (st_new base mx rs src ws) = Ok (outs, s') ->
+  wakes_ok ops outs ghost0.
+Proof.
+  intros Hrun. eapply run_wakers; [apply st_new_inv|apply ginv0|exact Hrun].
+Qed.
+
+(* the whole program returns, or panics only for the two known reasons *)
+Theorem poll_run_panic f base mx rs src ws : forall ops c,
+  run (poll_step_fuel (S (S f))) ops (st_new base mx rs src ws) = Panic c ->
+  (c = P_HANG /\ mx = 0) \/ c = P_ASSERT \/ c = P_OTHER.
+Proof.
+  assert (G : forall ops s c, sinv s -> wmax (wh s) = mx ->
+            run (poll_step_fuel (S (S f))) ops s = Panic c ->
+            (c = P_HANG /\ mx = 0) \/ c = P_ASSERT \/ c = P_OTHER).
+  { induction ops as [|op ops IH]; intros s c Hinv Hm Hrun; cbn [run] in Hrun; [discriminate|].
+    destruct (poll_step_fuel (S (S f)) op s) as [[o s1]|c'] eqn:Hs.
+    - cbn [rbind] in Hrun.
+      destruct (run (poll_step_fuel (S (S f))) ops s1) as [[os s2]|c''] eqn:Hr; [discriminate|].
+      cbn [rbind] in Hrun. inversion Hrun; subst.
+      destruct (poll_step_inv _ op s o s1 Hinv Hs) as [I1 (_ & [_ [_ C]] & _)].
+      eapply IH; [exact I1|congruence|exact Hr].
+    - cbn [rbind] in Hrun. inversion Hrun; subst.
+      pose proof (poll_step_panic f op s c Hinv Hs) as Hp.
+      destruct op; try contradiction.
+      + destruct Hp as [[_ ->]|(_ & _ & ->)]; auto.
+      + destruct Hp as [-> E]. left. split; [reflexivity|congruence]. }
+  intros ops c. apply G; [apply st_new_inv|reflexivity].
+Qed.
+
+(* ---------------------------------------------------------------------- *)
+(* the guarded-out configuration: max_buffer_size = 0.  Against an inner
+   writer whose flush() always succeeds (exhausted script), poll_write with a
+   non-empty buffer outlasts EVERY budget: it never returns. *)
+Definition spin_state (log : list wev) : whalf :=
+  mkwh (buf_with_capacity 4) 4 0 FNone WfWrite FNone false [Some 0; None; None] NO_WAKERS [] log.
+
+Lemma pw_loop_spins : forall fuel log, pw_loop fuel (spin_state log) [1%N] = Panic P_HANG.
+Proof.
+  induction fuel as [|f IH]; intros log; [reflexivity|].
+  cbn [pw_loop]. change (wr_write (spin_state log) [1%N]) with (Ok (OErr E_WOULD_BLOCK, spin_state log)).
+  cbn [rbind]. change (N.eqb E_WOULD_BLOCK E_WOULD_BLOCK) with true. cbv iota.
+  change (poll_flush_impl (spin_state log))
+    with (Ok (PReady (OOk 0), spin_state (log ++ [WFlush]))).
+  cbn [rbind]. apply IH.
+Qed.
+
+Theorem poll_write_max0_never_returns : forall fuel,
+  poll_write_fuel fuel 0 (wh_new 4 0 []) [1%N] = Panic P_HANG.
+Proof.
+  intros fuel. unfold poll_write_fuel.
+  change (shutdown_gate (set_wslots (wh_new 4 0 []) (upd E_WRITE (Some 0) (wslots (wh_new 4 0 [])))))
+    with (Ok (@None pres, spin_state [])).
+  cbn [rbind]. change (flush_gate (spin_state [])) with (Ok (@None pres, spin_state [])).
+  cbn [rbind]. apply pw_loop_spins.
+Qed.
+
+Lemma poll_write_wakers fuel w h data r h' :
+  winv h -> poll_write_fuel fuel w h data = Ok (r, h') ->
+  length (wslots h') = length (wslots h) /\
+  (forall e', e' <> E_WRITE -> slot e' (wslots h') = slot e' (wslots h)) /\
+  (r = PRPending ->
+     (wfut h' = FBlocked \/ sfut h' = FBlocked) /\ wreg h' = wslots h' /\
+     (E_WRITE < length (wslots h) -> slot E_WRITE (wslots h') = Some w)) /\
+  (r <> PRPending -> ~ (wfut h' = FBlocked \/ sfut h' = FBlocked)) /\
+  ((wfut h = FBlocked \/ sfut h = FBlocked) -> r = PRPending).
+Proof. intros Hi Hr. exact (proj2 (proj2 (proj2 (poll_write_spec fuel w h data r h' Hi Hr)))). Qed.
+
+Lemma invariants_kept base mx rs src ws :
+  sinv (st_new base mx rs src ws) /\ sync_inv (st_new base mx rs src ws) /\
+  (forall fuel op s o s', sinv s -> poll_step_fuel fuel op s = Ok (o, s') -> sinv s') /\
+  (forall op s o s', sync_inv s -> sync_step op s = Ok (o, s') -> sync_inv s').
+Proof.
+  split; [apply st_new_inv|]. split; [apply st_new_sync_inv|]. split.
+  - intros fuel op s o s' Hi Hr. exact (proj1 (poll_step_inv fuel op s o s' Hi Hr)).
+  - intros op s o s' Hi Hr. exact (proj1 (sync_step_inv op s o s' Hi Hr)).
+Qed.
+
+(* the inner write calls of one flush_to run: every call but the last moves at
+   least one byte, so there are at most max(1, pending bytes) of them *)
+Lemma wr_flush_loop_calls : forall ws b log total o b' log' ws',
+  bwf b ->
+  wr_flush_loop true ws b log total = Ok (o, b', log', ws') ->
+  length ws <= length ws' + Nat.max 1 (length (buf_pending b)).
+Proof.
+  induction ws as [|a ws IH]; intros b log total o b' log' ws' Hwf Hrun; cbn [wr_flush_loop] in Hrun.
+  - inversion Hrun; subst. cbn [length]. lia.
+  - destruct a as [a|]; [|inversion Hrun; subst; cbn [length]; lia].
+    destruct (writer_step a (buf_pending b)) as [r out] eqn:Hstep.
+    destruct (writer_step_spec _ _ _ _ Hstep) as (k & Hout & Hk & Hlen & Hr).
+    pose proof (buf_pending_length b Hwf) as Hpl. rewrite Hpl in Hk.
+    destruct r as [k'|e]; [|inversion Hrun; subst; cbn [length]; lia].
+    subst k'. destruct k as [|k]; [inversion Hrun; subst; cbn [length]; lia|].
+    destruct (buf_advance_spec b (S k) Hwf Hk) as (b1 & Hadv & Hwf1 & Hvec & Hpend).
+    rewrite Hadv in Hrun. cbn [rbind] in Hrun.
+    assert (Hl1 : length (buf_pending b1) = length (buf_pending b) - S k)
+      by (rewrite Hpend, skipn_length; reflexivity).
+    destruct (buf_all_done b1) eqn:Hd; [inversion Hrun; subst; cbn [length]; lia|].
+    specialize (IH _ _ _ _ _ _ _ Hwf1 Hrun).
+    assert (Hne : length (buf_pending b1) <> 0).
+    { unfold buf_all_done in Hd. apply Nat.leb_gt in Hd.
+      rewrite buf_pending_length by exact Hwf1. lia. }
+    cbn [length]. lia.
+Qed.
+
+(* the pinned statements, one per clause of the property *)
+Theorem poll_read_fifo fuel base mx rs src ws ops outs s' :
+  run (poll_step_fuel fuel) ops (st_new base mx rs src ws) = Ok (outs, s') ->
+  handed outs ++ buf_pending (rb (rh s')) ++ rsrc (rh s') = src.
+Proof. intros H. apply (poll_fifo _ _ _ _ _ _ _ _ _ H). Qed.
+
+Theorem sync_read_fifo base mx rs src ws ops outs s' :
+  run sync_step ops (st_new base mx rs src ws) = Ok (outs, s') ->
+  handed outs ++ buf_pending (rb (rh s')) ++ rsrc (rh s') = src.
+Proof. intros H. apply (sync_fifo _ _ _ _ _ _ _ _ H). Qed.
+
+Theorem poll_write_fifo fuel base mx rs src ws ops outs s' :
+  run (poll_step_fuel fuel) ops (st_new base mx rs src ws) = Ok (outs, s') ->
+  sink_bytes (wlog (wh s')) ++ buf_pending (wb (wh s')) = accepted outs.
+Proof. intros H. apply (poll_fifo _ _ _ _ _ _ _ _ _ H). Qed.
+
+Theorem sync_write_fifo base mx rs src ws ops outs s' :
+  run sync_step ops (st_new base mx rs src ws) = Ok (outs, s') ->
+  sink_bytes (wlog (wh s')) ++ buf_pending (wb (wh s')) = accepted outs.
+Proof. intros H. apply (sync_fifo _ _ _ _ _ _ _ _ H). Qed.
+
+Theorem poll_limits fuel base mx rs src ws ops outs s' :
+  run (poll_step_fuel fuel) ops (st_new base mx rs src ws) = Ok (outs, s') ->
+  length (buf_pending (wb (wh s'))) <= mx /\
+  length (buf_pending (rb (rh s'))) <= Nat.max base (mx + base - 1).
+Proof. intros H. apply (poll_fifo _ _ _ _ _ _ _ _ _ H). Qed.
+
+Theorem sync_limits base mx rs src ws ops outs s' :
+  run sync_step ops (st_new base mx rs src ws) = Ok (outs, s') ->
+  length (buf_pending (wb (wh s'))) <= mx /\
+  length (buf_pending (rb (rh s'))) <= Nat.max base (mx + base - 1).
+Proof. intros H. apply (sync_fifo _ _ _ _ _ _ _ _ H). Qed.
